@@ -3,7 +3,7 @@ import RbpfModel.Generated.Codec
 namespace Rbpf
 open Rbpf.Generated.Codec
 
-theorem CodecSrc_translated : toArraySrcOk = true ∧ toVecSrcOk = true ∧ getInsnSrcOk = true := by decide
+theorem CodecSrc_translated : toArraySrcOk = true ∧ toVecSrcOk = true ∧ getInsnSrcOk = true ∧ toInsnVecShape = true := by decide
 
 /-- `Insn::to_array`: the eight byte expressions -/
 theorem CodecSrc_toArray (i : Insn) : toArraySrc i = i.toArray := by
